@@ -79,6 +79,10 @@ struct Twin<'a> {
     next_u: i64,
     free_ids: Vec<i64>,
     dead: bool,
+    /// first statement kind of this history that belongs to a class with a listed index-maintenance defect
+    /// (DELETE / UPDATE / rolled-back transaction): from then on the indexes may already hold stale entries
+    /// that only a later lookup notices; such late detections are attributed to that statement kind
+    tainted_by: Option<String>,
 }
 
 fn scope() -> Scope { COLS.iter().map(|(n, _)| n.to_string()).collect() }
@@ -111,7 +115,7 @@ impl<'a> Twin<'a> {
         let b = Dbh::create(ctx, &format!("c10b-{tag}"));
         a.must("CREATE TABLE t (id BIGINT PRIMARY KEY, n BIGINT, d DOUBLE, s TEXT, u BIGINT UNIQUE, k TEXT)");
         b.must("CREATE TABLE t (id BIGINT, n BIGINT, d DOUBLE, s TEXT, u BIGINT, k TEXT)");
-        Twin { ctx, a, b, live: vec![], case, in_txn_seen: false, next_id: 1, next_u: 1000, free_ids: vec![], dead: false }
+        Twin { ctx, a, b, live: vec![], case, in_txn_seen: false, next_id: 1, next_u: 1000, free_ids: vec![], dead: false, tainted_by: None }
     }
 
     /// run a data statement on both databases; the outcomes must agree, and so must the point
@@ -132,7 +136,18 @@ impl<'a> Twin<'a> {
     /// point lookups of the touched values on both databases; on a mismatch the statement kind is
     /// blamed and the history stops (later differences would only be consequences)
     fn after(&mut self, sql: &str, kind: &str, touch: &[(usize, V)], rep: &mut Report) {
-        if !self.verify(sql, kind, touch, Some(rep)) { self.dead = true; rep.count("histories_stopped_at_first_stale_lookup"); }
+        let k = self.blame(kind);
+        if k != kind { rep.count("late_attribution_checks"); }
+        if !self.verify(sql, &k, touch, Some(rep)) { self.dead = true; rep.count("histories_stopped_at_first_stale_lookup"); }
+        if self.tainted_by.is_none() && (kind.starts_with("delete_") || kind.starts_with("update_") || kind == "rolled_back_txn") { self.tainted_by = Some(kind.to_string()); }
+    }
+
+    /// statement kind a stale lookup found right after a statement of kind `kind` is attributed to
+    fn blame(&self, kind: &str) -> String {
+        match (&self.tainted_by, kind) {
+            (Some(t), "insert" | "insert_multi" | "insert_dupkey" | "create_index" | "drop_index") => format!("{t}:late"),
+            _ => kind.to_string(),
+        }
     }
 
     fn verify(&mut self, stmt: &str, kind: &str, touch: &[(usize, V)], mut rep: Option<&mut Report>) -> bool {
@@ -202,7 +217,7 @@ impl<'a> Twin<'a> {
                     let (path, ixu) = self.path(&sqlo);
                     if ixu == p.name {
                     rep.oracle_fail(format!("{} ;; {sql} ;; {sqlo}", self.case), format!("right after `{sql}`: {sqlo} [plan {path}]: without indexes {} rows, with {} rows; missing: {} | extra: {}", y.len(), x.len(), show_some(&miss, 2), show_some(&extra, 2)),
-                        format!("index:stale-after:create_index:{path}:{}:orderby-{what}", COLS[c].1.kind()));
+                        format!("index:stale-after:{}:{path}:{}:orderby-{what}", self.blame("create_index"), COLS[c].1.kind()));
                     self.dead = true;
                     }
                 }
